@@ -6,7 +6,7 @@ export GOFLAGS=-mod=mod GOPROXY=off GOSUMDB=off
 wt=/tmp/vr_$name
 git -C /repo worktree remove --force $wt 2>/dev/null
 git -C /repo worktree add -q --detach $wt HEAD || exit 2
-t=$(grep -o "func Test${f}_[A-Za-z]*" /verif/go/demos/defects_test.go | sed 's/func //')
+t=$(grep -oh "func Test${f}_[A-Za-z]*" /verif/go/demos/*_test.go | sed 's/func //')
 sed "s#=> /repo#=> $wt#" /verif/go/go.mod > /tmp/vr_$name.mod; : > /tmp/vr_$name.sum
 cd /verif/go
 c=$(go test -modfile=/tmp/vr_$name.mod -tags verif -count=1 -run "^$t\$" ./demos/ >/tmp/vr_$name.c.log 2>&1; echo $?)
